@@ -62,6 +62,19 @@ func mbResolve(f *kit.Func, e ast.Expr) ast.Expr {
 	return e
 }
 
+// mbCond follows a boolean local with exactly one assignment to the
+// condition it holds (`b := x == y; if b {…}`).
+func mbCond(f *kit.Func, e ast.Expr) ast.Expr {
+	if id, ok := ast.Unparen(e).(*ast.Ident); ok {
+		if o := kit.ObjOf(f.Info(), id); o != nil {
+			if bt, isB := o.Type().Underlying().(*types.Basic); isB && bt.Info()&types.IsBoolean != 0 {
+				return mbResolve(f, id)
+			}
+		}
+	}
+	return e
+}
+
 // mbOffset evaluates an index/bound relative to the length of the base
 // slice: returns (k, false) for the constant k and (t, true) for len(base)-t.
 func mbOffset(b *kit.Bounds, f *kit.Func, base ast.Expr, e ast.Expr, at ast.Node) (k int64, fromEnd, ok bool) {
@@ -819,6 +832,7 @@ func c19R2(c *kit.Ctx, m *c19Model) {
 				st := &kit.Std{F: k}
 				cmp := fd.crcCmp.(*ast.BinaryExpr)
 				st.Eval.Atom = func(e ast.Expr) (string, bool, bool) {
+					e = mbCond(k, e)
 					if ast.Unparen(e) == ast.Expr(cmp) {
 						return "crcbad", cmp.Op == token.EQL, true
 					}
@@ -912,6 +926,7 @@ func c19R2(c *kit.Ctx, m *c19Model) {
 			st := &kit.Std{F: t.Decode}
 			dinfo := t.Decode.Info()
 			st.Eval.Atom = func(e ast.Expr) (string, bool, bool) {
+				e = mbCond(t.Decode, e)
 				if ast.Unparen(e) == ast.Expr(cmp) {
 					return "idne", cmp.Op == token.EQL, true
 				}
@@ -1068,6 +1083,7 @@ func c19FreshID(c *kit.Ctx, o *kit.Ob, f *kit.Func, fld, roleFld *types.Var, rol
 	info := f.Info()
 	st := &kit.Std{F: f}
 	st.Eval.Atom = func(e ast.Expr) (string, bool, bool) {
+		e = mbCond(f, e)
 		if a, b, op, ok := kit.CmpAtom(e); ok && (op == token.EQL || op == token.NEQ) {
 			for _, pr := range [][2]ast.Expr{{a, b}, {b, a}} {
 				if recvField(f, pr[0]) == roleFld {
@@ -1150,7 +1166,7 @@ func c19IncrementGuard(c *kit.Ctx, f *kit.Func, fld *types.Var) (*types.Var, str
 				}
 				conj = append(conj, e)
 			}
-			split(ifs.Cond)
+			split(mbCond(f, ifs.Cond))
 			for _, cj := range conj {
 				a, b, op, ok := kit.CmpAtom(cj)
 				if !ok || op != token.EQL {
